@@ -23,6 +23,7 @@ DIMS = {
     "s": ("Single", ["only"], "str"),
     "n": ("Number", [7, 9], None),
     "m": ("Cohort", ["pre", 1990, 1995], None),          # text and numbers in one (untyped) dimension
+    "o": ("Origin", ["r0", "r1"], None), "d": ("Destination", ["r0", "r1"], None),       # two dimensions over the SAME items
 }
 
 
@@ -137,6 +138,36 @@ def transforms(dw, df: PD.Frame, letters, wide_dim=None):
     if len(df.columns.labels) > 1:
         cols = list(reversed(df.columns.labels))
         yield "columns reversed", df[cols]
+
+
+def case_same_item_sets(prog):
+    """two dimensions with the same items (origin / destination): columns that are identified ONLY by their items cannot be told
+    apart, so from_df must not return - whatever it returned would be a guess that depends on the order the array stores its
+    dimensions in.  With named columns the round trip is exact.  -> list of (inp, ok, msg, qual)"""
+    out = []
+    FA = prog.cls("FlodymArray")
+    for letters in (("o", "d"), ("d", "o"), ("o", "a", "d")):
+        dw = DW(prog)
+        it = dw.it
+        arr = dw.array(letters, zeros=False)
+        src = dw.entries(arr)
+        k, df = run_guarded(lambda: it.call_method(arr, "to_df", index=False))
+        if k != "ok":
+            out.append(({"dims": list(letters)}, False, f"to_df ended with {k}: {df}", "FlodymArray.to_df"))
+            continue
+        names = [DIMS[l][0] for l in letters]
+        # named columns: exact
+        k2, back = run_guarded(lambda: it.call(it.get_attr(FA, "from_df"), [], dict(dims=dw.dimset(letters), df=df)))
+        bad = same_array(dw, back, src, letters) if k2 == "ok" else f"from_df ended with {k2}: {getattr(back, 'msg', back)!s:.120}"
+        out.append(({"dims": list(letters), "columns": "named"}, bad is None, f"two dimensions over the same items, columns named: {bad}", "DataFrameToFlodymDataConverter.get_target_values"))
+        # the same data, dimension columns without telling names, read into either storage order
+        anon = df.rename(columns={n_: f"col{i}" for i, n_ in enumerate(names)})
+        for target in (letters, tuple(reversed(letters))):
+            k3, back = run_guarded(lambda: it.call(it.get_attr(FA, "from_df"), [], dict(dims=dw.dimset(target), df=anon)))
+            inp = {"dims_of_the_data": list(letters), "target_dims": list(target), "columns": "identified by their items only"}
+            out.append((inp, k3 == "raise", "columns that can only be told apart by their items were assigned to two dimensions with the SAME items: "
+                        "the result depends on the order in which the target stores its dimensions", "DataFrameToFlodymDataConverter._check_missing_dim_columns"))
+    return out
 
 
 def flat_frame(df: PD.Frame):
